@@ -97,6 +97,18 @@ def check(run):
                "vectorised index of a large occupation vector", v)
         evaluations += 1
         distinct.add(v)
+    # many modes, few particles (the vectorised binomial used to overflow from 64 modes on: fixed by 867e933)
+    for d in ((64, 70, 100) if run.tier == "quick" else (40, 63, 64, 65, 70, 100, 150, 250)):
+        basis = np.array(fock.nb_get_fock_space_basis(d, 3))
+        expect(np.array_equal(indices.get_index_in_fock_space_array(basis), np.arange(len(basis))),
+               "vectorised index = position, many modes", (d, 3))
+        expect(all(int(indices.get_index_in_fock_space(basis[r])) == r for r in range(0, len(basis), 37)),
+               "scalar index = position, many modes", (d, 3))
+        sector = basis[1 + d:]
+        expect(np.array_equal(indices.get_index_in_fock_subspace_array(sector), np.arange(len(sector))),
+               "vectorised subspace index = position, many modes", (d, 2))
+        evaluations += len(basis)
+        distinct.add(("many-modes", d))
     # fermionic
     fd = 7 if run.tier == "quick" else 10
     for d in range(1, fd + 1):
